@@ -63,7 +63,14 @@ import (
 )
 
 func init() {
-	modes["c17"] = func(o *hx.Out, f hx.Flags) { c17Gen(o, hx.NewRng(f.Seed^0xc17), f.N) }
+	modes["c17"] = func(o *hx.Out, f hx.Flags) {
+		scale := 4
+		if f.Tier == "thorough" {
+			scale = 60
+		}
+		c17GenScale(o, hx.NewRng(f.Seed^0x5ca1e), scale)
+		c17Gen(o, hx.NewRng(f.Seed^0xc17), f.N)
+	}
 	replayKinds["nseq"] = c17Replay
 }
 
@@ -566,8 +573,142 @@ func (c *c17Run) stream(from int64) {
 		}
 		prev = off
 	}
+	if strings.HasPrefix(parts[1], "spin:") && len(got) < len(want) && join(got, ",") == join(want[:len(got)], ",") {
+		// the loop asks for the same window again and again although retained batches lie above its offset
+		at := strings.TrimPrefix(parts[1], "spin:")
+		o, _ := strconv.ParseInt(at, 10, 64)
+		same := 0
+		for i := 0; i < 50; i++ {
+			if c.r.exec(fmt.Sprintf("N:%d", o+1)) == "-" {
+				same++
+			}
+		}
+		short := ctx
+		if len(short) > 300 {
+			short = short[:300] + "..."
+		}
+		c.viol("notif:committed-batch-not-delivered", "%s: after %d delivered batches the loop sits at offset %d: ReadNextNotifications(%d) returned no batch in %d of 50 further rounds "+
+			"although %d retained batches lie above (next: offset %s); schedule: nseq 0 %d %d %s", short, len(got), o, o+1, same, len(want)-len(got),
+			strings.SplitN(want[len(got)], "/", 3)[1], c.r.e.shard, kv.DeleteRangeThreshold, c17Abbrev(c.r.ops))
+		return
+	}
 	if join(got, ",") != join(want, ",") {
-		c.viol("notif:gap-or-duplicate-on-resume", "%s: expected exactly %s", ctx, join(want, ","))
+		if len(ctx) > 600 {
+			ctx = ctx[:600] + "..."
+		}
+		w := join(want, ",")
+		if len(w) > 300 {
+			w = w[:300] + "..."
+		}
+		c.viol("notif:gap-or-duplicate-on-resume", "%s: expected exactly %s", ctx, w)
+	}
+}
+
+// c17Abbrev keeps a long schedule printable: runs of plain writes are summarised.
+func c17Abbrev(ops []string) string {
+	if len(ops) < 60 {
+		return strings.Join(ops, ";")
+	}
+	var out []string
+	run := 0
+	flush := func() {
+		if run > 0 {
+			out = append(out, fmt.Sprintf("<%d writes>", run))
+			run = 0
+		}
+	}
+	for _, op := range ops {
+		if strings.HasPrefix(op, "W:") {
+			run++
+			continue
+		}
+		flush()
+		out = append(out, op)
+	}
+	flush()
+	return strings.Join(out, ";")
+}
+
+// ---------------------------------------------------------------- scale: hundreds of offsets
+//
+// 150-400 (once: 1100) small writes, one millisecond apart; a trimming round that removes a long prefix; a stretch of
+// >= 100 writes with notifications disabled; then the dispatch loop from every interesting offset: so that the run of
+// offsets WITHOUT a stored batch right after the subscriber's position is 99 / 100 / 101 / much longer, in front of
+// retained batches; backlogs of more than 100 and more than 1000 batches.
+func c17GenScale(o *hx.Out, rng *hx.Rng, cases int) {
+	for cno := 0; cno < cases; cno++ {
+		crng := rng.Fork()
+		shard := int64(1 + crng.Intn(9))
+		tag := fmt.Sprintf("c17scale#%d", cno)
+		runCase(o, "nseq", shard, false, tag, fmt.Sprintf("%d", crng.U64()), func(r *runner) {
+			c := &c17Run{r: r, o: o, enabled: true, monotone: true, offOf: map[int64]uint64{}}
+			n := 150 + crng.Intn(250)
+			if cno == 0 {
+				n = 1100
+			}
+			// a disabled stretch [d, d+m) somewhere in the second half, in every other case
+			d, m := int64(-1), int64(0)
+			if cno%2 == 1 {
+				m = int64(hx.Pick(crng, []int{99, 100, 101, 130}))
+				d = int64(n/2) + int64(crng.Intn(n/2-int(m)-5))
+			}
+			ts := uint64(1000)
+			term := int64(1)
+			keys := []string{"a", "b", "c", "a/b", "k\x01x", "zz"}
+			for off := int64(0); off < int64(n); off++ {
+				if off == d {
+					c.do(fmt.Sprintf("T:%d:0", term))
+					c.do("E:0")
+					c.enabled = false
+					term++
+				}
+				if off == d+m && d >= 0 {
+					c.do(fmt.Sprintf("T:%d:1", term))
+					c.do("E:1")
+					c.enabled = true
+					term++
+				}
+				ts++
+				w := &wreq{offset: off, ts: ts, puts: []putOp{{key: hx.Pick(crng, keys), value: []byte{byte('0' + off%10)}}}}
+				if crng.Chance(10) {
+					w.dels = append(w.dels, delOp{key: hx.Pick(crng, keys)})
+				}
+				c.r.do(w.String())
+			}
+			o.CountN("scale:writes", n)
+			last := int64(n - 1)
+			streams := func(froms []int64) {
+				seen := map[int64]bool{}
+				for _, f := range froms {
+					if f >= -1 && f <= last+1 && !seen[f] {
+						seen[f] = true
+						c.stream(f)
+					}
+				}
+			}
+			// backlog of everything (> 100, once > 1000)
+			streams([]int64{-1, last - 100, last - 101, last - 99})
+			if d >= 0 {
+				// the disabled stretch is a hole inside the log: before it, at its edges, inside
+				streams([]int64{d - 1, d - 2, d, d + m/2, d + m - 1, d + m, d - 50})
+				o.Count("scale:disabled-stretch")
+			}
+			// a trimming round removes the prefix 0..t (clock mocked; one batch per millisecond)
+			t := int64(100 + crng.Intn(n/3))
+			if d >= 0 && t >= d {
+				t = d - 3
+			}
+			tsT := uint64(1001) + uint64(t)
+			c.trim(int64(tsT)+1000, 1000)
+			o.Count("scale:trim-long-prefix")
+			streams([]int64{-1, 0, t - 100, t - 99, t - 98, t - 101, t - 1, t, t + 1, t / 2, 10})
+			// something commits afterwards: every one of these subscribers must get it as well
+			ts++
+			c.r.do((&wreq{offset: last + 1, ts: ts, puts: []putOp{{key: "late", value: []byte("v")}}}).String())
+			last++
+			streams([]int64{10, t - 100, t, last - 1})
+			c.do("H")
+		})
 	}
 }
 
